@@ -99,6 +99,7 @@ Definition user_exec (c : chain) (u : user_op) : option (chain * list event) :=
   | UMtIssue class owner =>
       if mt_has_class class (a_mt a) then None else lift_mt c (mt_issue_class (a_mt a) class owner, true)
   | UMtMintNew class id amt data sender rcpt =>
+      if N.eqb amt 0 then None else        (* MsgMintMT.ValidateBasic: amount is required *)
       match lookup class (ms_classes (a_mt a)) with
       | None => None
       | Some owner =>
@@ -106,14 +107,17 @@ Definition user_exec (c : chain) (u : user_op) : option (chain * list event) :=
           if mt_exists (a_mt a) class id then None else lift_mt c (mt_issue (a_mt a) class id amt data rcpt)
       end
   | UMtMint class id amt sender rcpt =>
+      if N.eqb amt 0 then None else
       match lookup class (ms_classes (a_mt a)) with
       | None => None
       | Some owner =>
           if negb (beq owner sender) then None else
           if negb (mt_exists (a_mt a) class id) then None else lift_mt c (mt_mint (a_mt a) class id amt rcpt)
       end
-  | UMtMove class id amt from to => lift_mt c (mt_transfer (a_mt a) class id amt from to)
-  | UMtBurn class id amt owner => lift_mt c (mt_burn (a_mt a) class id amt owner)
+  | UMtMove class id amt from to =>         (* MsgTransferMT / MsgBurnMT.ValidateBasic: amount is required *)
+      if N.eqb amt 0 then None else lift_mt c (mt_transfer (a_mt a) class id amt from to)
+  | UMtBurn class id amt owner =>
+      if N.eqb amt 0 then None else lift_mt c (mt_burn (a_mt a) class id amt owner)
   | UMtSend class id sender receiver dest relay contract amt =>
       match mt_send mt_escrow enc_mt (c_name app_state c)
                     (next_send app_state c (c_name app_state c) dest) (a_mt a)
